@@ -45,6 +45,9 @@ type fatCfg struct {
 	// Preload: bytes written to BIG.BIN right after Create so that later allocations get
 	// high cluster numbers (>= 65536 on FAT32); BIG.BIN is not part of the path universe
 	Preload int64 `json:"preload,omitempty"`
+	// PreloadClusters: the same, counted in clusters of the volume (to bring the next free cluster next
+	// to an entry that sits on a FAT sector boundary: FAT12 341/682, FAT16 multiples of 256, FAT32 of 128)
+	PreloadClusters int `json:"preload_clusters,omitempty"`
 }
 
 // name sets: model path -> real name (lookups may use a case variant)
@@ -101,6 +104,10 @@ func newFatRun(cfg fatCfg, sha, raw bool) (*fatRun, map[string]any, error) {
 	}
 	r.vol = vol
 	r.B = vol.Block
+	if cfg.PreloadClusters > 0 {
+		cfg.Preload = int64(cfg.PreloadClusters) * vol.Block
+		r.cfg.Preload = cfg.Preload
+	}
 	if cfg.Preload > 0 {
 		if err := fsx.WriteFile(vol.FS, "BIG.BIN", fsx.Content(99, int(cfg.Preload))); err != nil {
 			return nil, nil, fmt.Errorf("preload: %w", err)
